@@ -9,6 +9,7 @@ import (
 	"net/http"
 	"net/http/httptest"
 	"net/url"
+	"strings"
 
 	"github.com/julienschmidt/httprouter"
 
@@ -33,6 +34,10 @@ func init() { Props["C14"] = runC14 }
 func runC14(env *Env, rc *RunCtx) {
 	if rc.Mode == "race" {
 		runC14Race(env, rc)
+		return
+	}
+	if rc.Mode == "handlers" {
+		runC14Handlers(env, rc)
 		return
 	}
 	t := rc.CaseTape
@@ -376,7 +381,6 @@ func runC14Race(_ *Env, rc *RunCtx) {
 	}
 }
 
-
 func cfgTraverses(cfg *Config, ns, rel string) bool {
 	n := cfg.FindNS(ns)
 	found := false
@@ -396,4 +400,157 @@ func cfgTraverses(cfg *Config, ns, rel string) bool {
 		walk(r.Rewrite)
 	}
 	return found
+}
+
+// mode handlers: the concurrent requests go through the real REST handlers
+// (check with different max-depth values for the SAME tuple on a chain where
+// depth decides, batch check, expand, list), built on the L1-wrapped
+// dependencies on private routers, inside the scheduler bubble. Every
+// (status, body) must equal the one the request gets when it runs alone.
+func runC14Handlers(env *Env, rc *RunCtx) {
+	t := rc.CaseTape
+	env.Wipe()
+	env.UseConfigCached(plainCfg, Limits{Depth: 10, Width: 1000, BatchMax: 12, BatchPar: 3})
+	theGen.Reseed(uint64(t.Choose(1<<30)), t.Choose(3))
+	dom := DefaultDomain
+	dom.AllowBad = false
+	var store []Tuple
+	for i := 0; i < t.Range(2, 10); i++ {
+		store = append(store, dom.Tuple(t))
+	}
+	// a chain: tree-shaped, so that the answer for a given max-depth is one value
+	k := t.Range(2, 5)
+	prev := SetRef{NS: "N0", Obj: "chain", Rel: "r0"}
+	for i := 0; i < k; i++ {
+		nx := SetRef{NS: "N0", Obj: fmt.Sprintf("c%d", i), Rel: "r0"}
+		store = append(store, Tuple{NS: prev.NS, Obj: prev.Obj, Rel: prev.Rel, Sub: Subject{Set: &nx}})
+		prev = nx
+	}
+	store = append(store, Tuple{NS: prev.NS, Obj: prev.Obj, Rel: prev.Rel, Sub: Subject{ID: "zed"}})
+	if err := env.Load(store); err != nil {
+		env.T.Fatalf("harness: %v", err)
+	}
+	env.L1.pageSize.Store(0)
+	deps := env.Deps
+	rr := &x.ReadRouter{Router: httprouter.New()}
+	check.NewHandler(deps).RegisterReadRoutes(rr)
+	expand.NewHandler(deps).RegisterReadRoutes(rr)
+	relationtuple.NewHandler(deps).RegisterReadRoutes(rr)
+	type hreq struct {
+		desc, method, target string
+		body                 []byte
+	}
+	var hs []hreq
+	chainT := Tuple{NS: "N0", Obj: "chain", Rel: "r0", Sub: Subject{ID: "zed"}}
+	depths := []int{1, 2, 3, 4, 5, 6, 7, 9}
+	nDepth := t.Range(2, 3)
+	for i := 0; i < nDepth; i++ {
+		d := depths[t.Choose(len(depths))]
+		v := tupleURL(chainT)
+		v.Set("max-depth", fmt.Sprint(d))
+		if t.Bool(1, 2) {
+			hs = append(hs, hreq{desc: fmt.Sprintf("GET check chain max-depth=%d", d), method: "GET", target: "/relation-tuples/check/openapi?" + v.Encode()})
+		} else {
+			b, _ := json.Marshal(chainT.API())
+			hs = append(hs, hreq{desc: fmt.Sprintf("POST check chain max-depth=%d", d), method: "POST", target: fmt.Sprintf("/relation-tuples/check?max-depth=%d", d), body: b})
+		}
+	}
+	for i := 0; i < t.Range(0, 3); i++ {
+		tu := store[t.Choose(len(store))]
+		switch t.Choose(4) {
+		case 0:
+			q := tu
+			q.Sub = Subject{ID: pick(t, dom.Users)}
+			hs = append(hs, hreq{desc: "GET check " + q.String(), method: "GET", target: "/relation-tuples/check/openapi?" + tupleURL(q).Encode()})
+		case 1:
+			b, _ := json.Marshal(map[string]any{"tuples": []any{tu.API(), chainT.API()}})
+			hs = append(hs, hreq{desc: "POST batch", method: "POST", target: fmt.Sprintf("/relation-tuples/batch/check?max-depth=%d", depths[t.Choose(len(depths))]), body: b})
+		case 2:
+			hs = append(hs, hreq{desc: "GET expand " + tu.String(), method: "GET", target: "/relation-tuples/expand?" + url.Values{"namespace": {tu.NS}, "object": {tu.Obj}, "relation": {tu.Rel}}.Encode()})
+		default:
+			hs = append(hs, hreq{desc: "GET list " + tu.NS, method: "GET", target: "/relation-tuples?" + url.Values{"namespace": {tu.NS}}.Encode()})
+		}
+	}
+	mk := func(h hreq) *Request {
+		return &Request{Kind: "fn", Fn: func(ctx context.Context) any {
+			var rd io.Reader = http.NoBody
+			if h.body != nil {
+				rd = bytes.NewReader(h.body)
+			}
+			req := httptest.NewRequest(h.method, "http://keto.sim"+h.target, rd).WithContext(ctx)
+			rec := httptest.NewRecorder()
+			rr.ServeHTTP(rec, req)
+			return fmt.Sprintf("%d %s", rec.Code, strings.TrimSpace(rec.Body.String()))
+		}}
+	}
+	alone := make([]string, len(hs))
+	for i, h := range hs {
+		rq := mk(h)
+		r := env.Exec(NewTape(Mix(rc.execSeed, 556, uint64(i))), []*Request{rq}, NoFaults())
+		rc.Rec.Execs++
+		if !r.Returned {
+			rc.Rec.Skipped = "alone-run-did-not-return"
+			return
+		}
+		alone[i], _ = rq.result.(string)
+	}
+	distinctAnswers := map[string]bool{}
+	for i := 0; i < nDepth; i++ {
+		distinctAnswers[alone[i]] = true
+	}
+	rc.Rec.NonTrivial = len(distinctAnswers) >= 2
+	if rc.Rec.NonTrivial {
+		rc.Count("probe_depth_decides", 1)
+	}
+	rc.Rec.CaseHash = fmt.Sprintf("%016x", fnv64(fmt.Sprint(store, hs), 0))
+	nExec := execsFor(rc.Tier, 4, 12)
+	for e := 0; e < nExec; e++ {
+		if rc.SkipExec(e) {
+			continue
+		}
+		et := rc.ExecTape(e)
+		var reqs []*Request
+		for _, h := range hs {
+			reqs = append(reqs, mk(h))
+		}
+		plan := NoFaults()
+		if et.Bool(1, 3) {
+			for range reqs {
+				plan.StartAfter = append(plan.StartAfter, []int{0, 0, 1, 2, 3}[et.Choose(5)])
+			}
+		}
+		r := env.Exec(et, reqs, plan)
+		rc.Rec.Execs++
+		rc.AddSchedule(r.TraceHash)
+		if r.MaxParked >= 2 {
+			rc.Count("probe_requests_interleaved", 1)
+		}
+		if !r.Returned {
+			if r.Outcome == DriveStepLimit {
+				return
+			}
+			rc.Violate("no-result", "handlers", "concurrent handler requests did not all return", map[string]any{"requests": hs, "schedule": r.Trace}, e, et)
+			return
+		}
+		for i, rq := range reqs {
+			got, _ := rq.result.(string)
+			if got != alone[i] {
+				var ds []string
+				for j, h := range hs {
+					ds = append(ds, fmt.Sprintf("r%d: %s => alone %q", j, h.desc, alone[j]))
+				}
+				rc.Violate("interference", "handler", fmt.Sprintf("request r%d (%s) answered %q when run concurrently and %q when run alone", i, hs[i].desc, got, alone[i]),
+					map[string]any{"requests": ds, "schedule": r.Trace, "chain_length": k}, e, et)
+				return
+			}
+		}
+	}
+	rc.Count("handler_requests", len(hs))
+	if rc.WantSample {
+		var ds []string
+		for j, h := range hs {
+			ds = append(ds, fmt.Sprintf("r%d: %s => %q", j, h.desc, alone[j]))
+		}
+		rc.Rec.Sample = map[string]any{"requests_and_alone_results": ds, "chain_length": k}
+	}
 }
